@@ -9,7 +9,7 @@
    later request until the step yields (the implementation check covers <= 3 requests at every boundary; the
    two known findings D8 / D3b are exactly the cases where it does not). *)
 From Coq Require Import List String Bool.
-From Plumpy Require Import Val Mon PortModel Model Run LifePath LifeBook LifeSx LifeFx LifePtr.
+From Plumpy Require Import Val Mon PortModel Model Run LifePath LifeBook LifeSx LifeFx LifeAgree LifePtr LifeKill.
 Import ListNotations.
 
 (* kill() requested between any two loop callbacks of any run returns a result, never an exception *)
@@ -65,6 +65,21 @@ Theorem C04_nothing_pending_between_steps :
     intr w = None /\ pausing w = None /\ killing w = None.
 Proof. exact nothing_pending_between_steps. Qed.
 Print Assumptions C04_nothing_pending_between_steps.
+
+(* a kill() made between two steps of ANY reachable live process (any program, listener scripts, callbacks, any schedule
+   before it; hooks that do not raise) is carried out at once: it answers True, the process is KILLED with the kill text, its
+   future raises KilledError with that text, it is closed, its listeners were told exactly once and the cleanup ran.
+   [wp m Q w] = the outcome and final world of running m from w satisfy Q (Base/Mon.v). *)
+Theorem C04_kill_between_steps_every_run :
+  forall c es w msg,
+    cf_fault c = None -> run c es = Some w -> is_terminated w = false -> stepping w = false ->
+    wp (ctl_call (CKill msg))
+       (fun r w' => r = Ok (CrBool true) /\ st w' = Some (SKilled (Some msg))
+                    /\ pfut w' = PfExn (EKilled (match msg with Some t => t | None => ""%string end))
+                    /\ closed w' = true /\ hooks_alive w' = false
+                    /\ marks (trace w') = [EvListener "on_process_killed"; EvCleanup 0] /\ transitioning w' = false) w.
+Proof. exact kill_between_steps_every_run. Qed.
+Print Assumptions C04_kill_between_steps_every_run.
 
 (* a kill, like every other event, never moves a terminated process: the outcome of a killed process stays KILLED *)
 Theorem C04_killed_is_final :
